@@ -100,6 +100,17 @@ CHECKS = {
         "Trusted: CPython ints. Synthetic zones built from generated yearly rules extend the search beyond the bundled data.",
         "DESIGN.md §2 C04",
     ),
+    "C05": (
+        "exploration",
+        "enumeration of transition-neighbourhood probes + Hypothesis, against a brute-force pre-image oracle over the independently decoded interval list",
+        "For every transition of every canonical zone (all stored transitions and sampled tail years in quick, all "
+        "through 9999 in thorough) 22 local date-times around the transition are mapped and compared with the set of "
+        "intervals whose local span contains the value: count, instants (earlier first), gap neighbours, strict / "
+        "lenient resolvers, start-of-day incl. wholly skipped days, explicit-offset constructor, round trip "
+        "instant -> local -> map_local, non-ISO calendars, fixed zones.",
+        "Trusted: ref/tzrules interval lists (validated against the library by C06), CPython ints.",
+        "DESIGN.md §2 C05",
+    ),
     "C06": (
         "exploration",
         "differential testing against an independent interpreter of the .nzd bytes and of the yearly rules (enumerated zones/periods/transitions)",
